@@ -18,6 +18,8 @@ WTARGET = os.path.join(R.CACHE, 'witness-target' + _sfx)
 # (unit regex, fn regex) -> witness cases to try, in order
 CASES = [
     (r'k\.atomic', r'.*', ['atomic']),
+    (r'k\.atomic_bv', r'.*', ['bitvec_stale', 'bitvec_ops']),
+    (r'k\.select_small_complete|select\..*', r'.*', ['select_all']),
     (r'k\.bfv_unaligned', r'.*', ['bfv_unaligned']),
     (r'k\.bfv_apply', r'.*', ['bfv_apply']),
     (r'k\.rank_small.*', r'.*', ['rank_all']),
@@ -29,10 +31,11 @@ CASES = [
     (r'ef\.scan', r'.*', ['ef_dict', 'ef_seq']),
     (r'ef\.(guards|dict).*', r'.*', ['ef_dict']),
     (r'vfilter\..*', r'.*', ['vfilter']),
+    (r'vbuilder\..*', r'.*', ['vfilter', 'vfunc']),
     (r'vfunc\.get', r'.*', ['vfunc']),
     (r'(shard_edge|k\.setup_graphs|k\.sig_high_bits)', r'.*', ['shard_edge']),
     (r'lenders\.take', r'.*', ['lenders_take']),
-    (r'lenders\..*', r'.*', ['lenders']),
+    (r'lenders\..*', r'.*', ['lenders', 'lenders_selfcons']),
     (r'rank9', r'.*', ['rank9']),
     (r'rank_small.*', r'.*', ['rank_all']),
     (r'bfv\.copy.*', r'.*', ['bfv_copy']),
@@ -132,6 +135,8 @@ PROP_TWINS = {
     'C08': ['vfilter', 'vfunc'],
     'C11': ['shard_edge', 'vfunc'],
     'C05': ['bfv_misc'],
+    'C20': ['lenders', 'lenders_selfcons', 'lenders_take'],
+    'C06': ['bitvec_ops', 'bitvec_stale'],
     'C10': ['bfv_chunks', 'bfv_apply'],
     'C14': ['bfv_chunks', 'bfv_apply'],
 }
